@@ -672,3 +672,57 @@ def _(c):
     sc = max(1.0, float(np.abs(direct[:3]).max()))
     c.ensure("split_equals_direct", bool(np.linalg.norm(chained[:3] - direct[:3]) <= 1e-9 * sc + 1e-6 and np.linalg.norm(chained[3:] - direct[3:]) <= 1e-9))
     c.ensure("returned_state_dated_at_the_split", mid.date == split)
+
+
+# ---------------------------------------------------------------------------------------------
+# an impulse dated while a burn is under way (a list ordered by date may hold one)
+# ---------------------------------------------------------------------------------------------
+
+def _grid_overlap(tier, rng):
+    """impulse dated {inside the burn, at the burn's start, at the burn's stop, after it (control)} x orientation {QSW, TNW} x target date {after the burn, inside it after the impulse}"""
+    for where in range(4):
+        for ori in (0, 1):
+            for tgt in (0, 1):
+                yield {"where": where, "ori": ori, "target": tgt}
+
+
+@contract("C16", "impulse_during_a_burn", funcs=[f"{CWC}.propagate"], grid=_grid_overlap, level="bounded")
+def _(c):
+    """bounded: with the list [burn(start, duration), impulse(date)] ordered by date, the impulse changes the velocity by its delta-v once at its date also when that date
+    falls while the burn is under way: the result equals the piecewise solution (thrust up to the impulse, + dv, thrust to the end of the burn, coast) built with the
+    propagator's own transition function (1e-9 relative)"""
+    from beyond.orbits import Orbit
+    from beyond.dates import Date, timedelta
+    from beyond.propagators.cw import ClohessyWiltshire
+    from beyond.frames.frames import HillFrame
+    import beyond.frames.frames as fr
+    from beyond.orbits.man import ImpulsiveMan, ContinuousMan
+    saved = fr.dynamic.get("Hill")
+    frame = HillFrame(["QSW", "TNW"][c.integer("ori")])
+    fr.dynamic["Hill"] = saved
+    d0 = Date(2020, 1, 1)
+    p = ClohessyWiltshire(6.8e6, frame=frame)
+    o = Orbit([-600.0, -1500.0, 10.0, 0.1, 0.2, 0.0], d0, "cartesian", frame, p)
+    t1 = d0 + timedelta(seconds=1000)
+    dur = timedelta(seconds=300)
+    ti = [t1 + timedelta(seconds=120), t1, t1 + dur, t1 + dur + timedelta(seconds=50)][c.integer("where")]
+    burn = ContinuousMan(t1, dur, dv=[0.0, 0.3, 0.0])
+    imp = ImpulsiveMan(ti, [0.02, -0.03, 0.01])
+    o.maneuvers = [burn, imp] if ti > t1 else [imp, burn]
+    end = d0 + timedelta(seconds=2500) if c.integer("target") == 0 else t1 + timedelta(seconds=200)
+    c.require(end > ti)
+    got = np.asarray(o.propagate(end), dtype=float)
+    # the piecewise solution, with the propagator's own transition function
+    plain = Orbit(np.asarray(o, dtype=float), d0, "cartesian", frame, p)
+    x = plain
+    cuts = sorted({t1, t1 + dur, ti, end})
+    for a, b in zip([d0] + cuts, cuts):
+        if b > end:
+            break
+        thrust = burn.accel(x) if (t1 <= a and b <= t1 + dur) else None
+        x = p._propagate(b, x, thrust)
+        if b == ti:
+            x[3:] += imp.dv(x)
+    want = np.asarray(x, dtype=float)
+    sc = max(1.0, float(np.abs(want[:3]).max()))
+    c.ensure("impulse_counted_once", bool(np.linalg.norm(got[:3] - want[:3]) <= 1e-9 * sc + 1e-6 and np.linalg.norm(got[3:] - want[3:]) <= 1e-9))
